@@ -324,14 +324,20 @@ def make_frame(rng, values, key_kind=None, attr='attr', key='id', extra_cols=Non
                odd_index=None, str_dtype=False):
     """DataFrame with a unique key column, the join column (object dtype) and optional extras"""
     n = len(values)
-    key_kind = key_kind or rng.choice(['int', 'str', 'int_offset'])
+    key_kind = key_kind or rng.choice(['int', 'str', 'int_offset', 'int', 'str', 'int_offset', 'mixed'])
     if key_kind == 'int':
         keys = list(range(n))
     elif key_kind == 'int_offset':
         keys = rng.sample(range(100, 100 + 3 * n + 3), n)
+    elif key_kind == 'mixed':
+        # an object column of ints, non-integral floats and strings: distinct under Python equality (1 == 1.0 == True would not be)
+        # (ints and floats are not mixed in one column: pandas would turn a numeric-only output column into float64, which
+        # is its dtype inference and not the library's doing)
+        num = rng.choice([lambda i: i, lambda i: i + 0.5])
+        keys = [rng.choice([num(i), 'k%d' % i]) for i in rng.sample(range(3 * n + 3), n)]
     else:
         keys = ['k%d' % i for i in rng.sample(range(3 * n + 3), n)]
-    cols = {key: pd.Series(keys, dtype=object if key_kind == 'str' else None)}
+    cols = {key: pd.Series(keys, dtype=object if key_kind in ('str', 'mixed') else None)}
     col = pd.Series(values, dtype=object)
     if str_dtype:
         col = pd.Series(values, dtype='str')
